@@ -2,8 +2,10 @@ package main
 
 import (
 	"bytes"
+	"fmt"
 	"sort"
 	"strings"
+	"verif/textgen"
 
 	"github.com/200sc/bebop"
 )
@@ -33,6 +35,7 @@ type scenario struct {
 	Targets    []string          `json:"targets"`     // relative paths the oracle watches
 	ExpectFail bool              `json:"expect_fail"` // the fault-free run has to report an error (rule 5)
 	RelCwd     bool              `json:"relative_paths"`
+	NoFaults   bool              `json:"no_faults"` // corpus scenarios: fault-free run only (the formatter is the subject, not the file operations)
 }
 
 func (s *scenario) id() string { return s.Tool + "|" + s.Input + "|prior=" + s.Prior }
@@ -174,6 +177,21 @@ func scenarios(thorough bool) []*scenario {
 	un := fmtDirScenario("unreadable-input/nonexistent", map[string]string{}, nil, true)
 	un.Prior = "absent"
 	out = append(out, un)
+	// formatter corpus: every definition of the C11/C16 alphabet, one file each, in several layouts. bebopfmt -w must
+	// exit 0 and every rewritten file must still parse to the same schema (fault-free runs only).
+	for _, li := range []int{0, 7, 9, 12, 14, 15, 16} {
+		if li >= len(textgen.Layouts) {
+			continue
+		}
+		l := textgen.Layouts[li]
+		files := map[string]string{}
+		for i, d := range textgen.Alphabet(0) {
+			files[fmt.Sprintf("f%02d.bop", i)] = textgen.Render([]*textgen.Def{d}, l)
+		}
+		c := fmtDirScenario("valid/corpus-"+l.Name, files, nil, false)
+		c.NoFaults = true
+		out = append(out, c)
+	}
 	if thorough {
 		out = append(out,
 			fmtDirScenario("formatter-mangled/flags-enum", three(schemaFlagsEnum, schemaValidRaw2, schemaValidRaw3), nil, false),
